@@ -45,7 +45,7 @@ def topo_spec(draw, pdb_safe=False):
             rs = draw(st.sampled_from([None, 0, 1, 1, 2, 7, -3, 9999, 10000]))
             if rs is None:
                 rs = r + 1
-            name = draw(st.sampled_from(["LIG", "NA", "CL", "LIG"] if ligand_only else RESN))
+            name = draw(st.sampled_from(["LIG", "NA", "CL", "LIG", "UNK", "MOL", "ORN", "NME"] if ligand_only else RESN))
             seg = draw(st.sampled_from(["", "", "SEGA", "P1"]))
             atoms = []
             for a in range(draw(st.integers(1, 4))):
@@ -382,10 +382,22 @@ def run_case(case):
                     # PDB schema: name, resName, resSeq, chain id, segment id, element; chain ids absent in the input are
                     # assigned by the writer; serial numbers: see DESIGN (compared separately below)
                     f = [x for x in src.fields if x not in ("serial", "cid")]
-                    conect_only = all(x["resname"] in ("LIG", "NA", "CL") for x in rows)
+                    conect_only = all(x["resname"] in ("LIG", "NA", "CL", "MOL") for x in rows)
                     new = Entry(out, ([dict(x) for x in rows], list(bonds)), f, conect_only, False)
                     if conect_only and bonds:
                         labels.append("pdb-conect-bonds")
+                    if not conect_only and all(x["resname"] in ("LIG", "NA", "CL", "MOL", "UNK", "ORN", "NME") for x in rows):
+                        # hetero / non-standard residues some of which have a template (the reader may add template bonds): every
+                        # bond of the saved topology must still be there, and the loaded bond list is the model from here on
+                        _gr, gb_ = sig(out)
+                        have = {(i_, j_) for i_, j_, _t, _o in gb_}
+                        lost = [(i_, j_) for i_, j_, _t, _o in bonds if (min(i_, j_), max(i_, j_)) not in have]
+                        if lost:
+                            viol.append(("pdb/bonds-lost", "bonds %s of non-standard residues %s are gone after save + load" % (
+                                lost[:4], sorted({rows[i_]["resname"] for i_, _j in lost[:4]}))))
+                        new = Entry(out, ([dict(x) for x in rows], list(gb_)), f, True, False)
+                        if bonds:
+                            labels.append("pdb-conect-bonds-template-names")
                     got_rows, _gb = sig(out)
                     for gi, (g, m_) in enumerate(zip(got_rows, rows)):
                         if m_["cid"] is not None and g["cid"] != m_["cid"]:
